@@ -227,13 +227,7 @@ pub fn run_case(c: &Case) -> CaseOut {
 }
 
 fn opname(op: &Op) -> &'static str {
-    match op {
-        Op::Apply(_) => "apply_func",
-        Op::Compose(_, true) => "compose_pruned",
-        Op::Compose(_, false) => "compose",
-        Op::Elim => "infeasible_elimination",
-        Op::Reduce => "reduce",
-    }
+    op.name()
 }
 
 pub fn run(tier: Tier) -> Report {
